@@ -17,7 +17,7 @@ def main():
     tier = args.tier if args.tier in ('quick', 'thorough') else 'quick'
     seed = int(os.environ.get('VERIF_SEED', '0') or 0)
     pid = args.pid.upper()
-    ok, msg = core.ensure_built()
+    ok, msg = core.ensure_built(pid)
     if not ok:
         p = core.VERIF / 'replays'
         p.mkdir(exist_ok=True)
